@@ -88,7 +88,7 @@ def run(ctx):
                 ctx.ob(ok)
                 if not ok:
                     tags = set(rs[0]["case"]["tags"]) if rs[0]["case"] else set()
-                    bad = tags & {"leader_not_first_factor", "metrics_partitioned_index_math", "eager_root_after_lookup_rank"}
+                    bad = tags & {"leader_not_first_factor", "eager_root_after_lookup_rank"}
                     # convolutions outside C04's claimed class stay C04's findings (same classification and signatures as ./check C04)
                     conv_known = None
                     if "conv" in tags:
